@@ -82,6 +82,16 @@ for case in job['unchecked']:
                         e.replace_child(u[op[1]], c)
                     else:
                         e.replace_child(XE.XMLStep('A'), c)
+                elif op[0] == 'x':
+                    c = R.make(op[1]); c.xsd_check = False; c._vid = i
+                    setattr(e, 'xml_' + op[1].replace('-', '_'), c)
+                elif op[0] == 'n':
+                    setattr(e, 'xml_' + op[1].replace('-', '_'), None)
+                elif op[0] == 'g':
+                    got = getattr(e, 'xml_' + op[1].replace('-', '_'))
+                    first = [c for c in u if c.name == op[1]]
+                    if (got is None) != (not first) or (first and got is not first[0]):
+                        raise RuntimeError('shortcut read returns %r' % (got,))
                 elif op[0] == 's':
                     import xml.etree.ElementTree as ET
                     s = e.to_string()
